@@ -109,17 +109,19 @@ class MultiObjectiveProblem(Problem[P]):
         self.n_objectives = len(self.minimize) if isinstance(self.minimize, list) else None
         self.initialized = not isinstance(self.minimize, bool) and self.n_objectives is not None
 
-        def default_single_objective_merge(d: Any) -> float:
+        def default_single_objective_merge(d: Any, values: list[float] | None = None) -> float:
+            fits = fitness_function(d) if values is None else values
             if isinstance(self.minimize, list):
-                return sum(m and -fit or +fit for (fit, m) in zip(fitness_function(d), self.minimize))
+                return sum(m and -fit or +fit for (fit, m) in zip(fits, self.minimize))
             elif isinstance(self.minimize, bool):
-                return sum(-fit if self.minimize else fit for fit in fitness_function(d))
+                return sum(-fit if self.minimize else fit for fit in fits)
             else:
                 assert False, "minimize must be either a list[bool] or a bool"
 
         self.ff = {
             "ff": fitness_function,
             "best_individual": best_individual_criteria_function or default_single_objective_merge,
+            "default_best_individual": best_individual_criteria_function is None,
             "aggregate_fitness": aggregate_fitness,
         }
 
@@ -136,7 +138,9 @@ class MultiObjectiveProblem(Problem[P]):
                 self.minimize = [bool(self.minimize) for _ in multiple]
             self.n_objectives = len(multiple)
             self.initialized = True
-        if self.ff["aggregate_fitness"] is None:
+        if self.ff["aggregate_fitness"] is None and self.ff["default_best_individual"]:
+            single = self.ff["best_individual"](phenotype, multiple)
+        elif self.ff["aggregate_fitness"] is None:
             single = self.ff["best_individual"](phenotype)
         else:
             single = self.ff["aggregate_fitness"](multiple)
